@@ -9,7 +9,7 @@ use std::path::{Path, PathBuf};
 #[cfg(feature = "dist-client")]
 pub use self::client::ClientToolchains;
 use crate::util::Digest;
-use std::io::Read;
+use std::io::{Read, Seek, SeekFrom};
 
 #[cfg(feature = "dist-client")]
 mod client {
@@ -508,14 +508,29 @@ impl TcCache {
         if !tc.archive_id_is_valid() {
             return Err(anyhow!("invalid toolchain id {:?}", tc.archive_id));
         }
-        self.inner
-            .insert_with(make_lru_key_path(&tc.archive_id), with)?;
-        let verified_archive_id = file_key(self.get(tc)?)?;
-        // TODO: remove created toolchain?
-        if verified_archive_id == tc.archive_id {
-            Ok(())
-        } else {
-            Err(anyhow!("written file does not match expected hash key"))
+        // Receive the toolchain into a temporary file (ignored and deleted by a
+        // restarted cache) and only move it to its place under `archive_id` once
+        // its content has been verified, so that neither a mismatching nor an
+        // interrupted upload is ever stored under that id.
+        let mut entry = self
+            .inner
+            .prepare_add(make_lru_key_path(&tc.archive_id), 0)?;
+        let verified_archive_id = (|| {
+            let file = entry.as_file_mut();
+            with(fs::File::from_parts(file.try_clone()?, "toolchain upload"))?;
+            file.seek(SeekFrom::Start(0))?;
+            file_key(file)
+        })();
+        match verified_archive_id {
+            Ok(archive_id) if archive_id == tc.archive_id => Ok(self.inner.commit(entry)?),
+            Ok(_) => {
+                self.inner.abandon(entry);
+                Err(anyhow!("written file does not match expected hash key"))
+            }
+            Err(e) => {
+                self.inner.abandon(entry);
+                Err(e)
+            }
         }
     }
 
